@@ -32,3 +32,4 @@
 (assert (forall ((v Val)) (! (=> ((_ is VList) v) (< (rankL (ls v)) (rank v))) :pattern ((rankL (ls v))))))
 (assert (forall ((h Val) (t Lst)) (! (and (< (rank h) (rankL (LCons h t))) (<= (rankL t) (rankL (LCons h t)))) :pattern ((LCons h t)))))
 (assert (forall ((a Lst) (b Lst)) (! (>= (rankL (app a b)) (rankL b)) :pattern ((app a b)))))
+(assert (forall ((m MapC) (k String)) (! (<= (rank (VMap (store m k VAbsent))) (rank (VMap m))) :pattern ((rank (VMap (store m k VAbsent)))))))
